@@ -1,6 +1,6 @@
 """C13 - HpoSet filters, replacements and aggregates (clauses: SIBLING pairs, FIELD+SELECT filters, KIND aggregates)"""
 import re
-from engines import bool_polarity, kernel, kind_elements
+from engines import bool_polarity, kernel, kind_elements, adaptor_chain, TRUNCATING_ADAPTORS
 from prov import Prov, params_of, field_names
 
 CLAIM = ("(SIBLING) each in-place operation and its copying sibling (remove_modifier/without_modifier, remove_obsolete/without_obsolete, "
@@ -120,12 +120,35 @@ def run(ck, prog, ctx):
             else:
                 ob, ot = quant
                 ck.ob("SELECT", "child_nodes/quantifier", ot.callee.method == "all", "the test is quantified with Iterator::%s over the members" % ot.callee.method, where=ob.where(ot.line))
+                chain = adaptor_chain(ob, pvn, ot.args[0])
+                cut = [m for m in chain if m in TRUNCATING_ADAPTORS]
+                src = field_names(pv.of_operand(ob, ot.args[0]), "HpoSet")
+                ck.ob("SELECT", "child_nodes/over-all-members", not cut and "group" in src, "the quantifier ranges over %s" % ("every member of the set" if not cut and "group" in src else "a TRUNCATED part of the members (%s): some ancestor/descendant pairs are never compared" % ", ".join(cut or ["not self.group"])), where=ob.where(ot.line))
                 # key = outer candidate (upvar), receiver term looked up by the inner item (closure param)
                 key_at = pvn.of_operand(fb, t.args[1])
                 recv_at = pvn.of_operand(fb, t.args[0])
                 key_is_upvar = any(a[0] == "param" and a[2] == 1 for a in key_at) or any(a[0] == "upvar" for a in key_at) or not params_of(key_at, fb.id) - {1}
                 recv_from_item = 2 in params_of(recv_at, fb.id)
                 ck.ob("FIELD", "child_nodes/roles", bool(key_is_upvar and recv_from_item and 2 not in params_of(key_at, fb.id)), "the closure set belongs to the OTHER member (inner item) and the searched id is the candidate", where=fb.where(t.line))
+
+    # ---------------------------------------------------------------- category counts
+    cg = prog.body(S + "categories")
+    if cg is not None:
+        fam = prog.family(cg)
+        incs, inits, src = [], [], set()
+        for fb in fam:
+            for pos, st in fb.stmts():
+                if st.k == "assign" and st.rv["k"] == "bin" and st.rv["op"].startswith("Add") and st.rv["r"].kind == "const":
+                    incs.append(st.rv["r"].int_value())
+            for bi, t in fb.calls():
+                if t.callee.method in ("or_insert", "or_insert_with", "insert") and len(t.args) >= 2 and t.args[-1].kind == "const":
+                    inits.append(t.args[-1].int_value())
+                if (t.callee.res or "").endswith("HpoTerm::<'a>::categories") or (t.callee.res or "").endswith("HpoTerm::<'_>::categories"):
+                    src.add("HpoTerm::categories")
+        if not incs or not inits:
+            ck.undecided("SELECT", "categories/count", "counting idiom (entry().and_modify(+1).or_insert(1)) not recognised", where=cg.where())
+        else:
+            ck.ob("SELECT", "categories/count", set(incs) == {1} and set(inits) == {1} and src == {"HpoTerm::categories"}, "category counts start at %s and grow by %s per member category (expected 1 and 1)" % (sorted(set(inits)), sorted(set(incs))), where=cg.where())
 
     # ---------------------------------------------------------------- KIND K1
     for name, kind in (("gene_ids", "Gene"), ("omim_disease_ids", "Omim"), ("orpha_disease_ids", "Orpha")):
